@@ -3,10 +3,11 @@ import AlgoVerif.Proofs.C01Inst
 /-!
 # C15 — balanced trees stay logarithmic and report their true height
 
-`run kind cmp eqVal ops = .ok (s, outs)` says: the history `ops`, executed on three fresh tables of the
-Model of `symboltable/{bst,avl,red_black}.go`, ended in the state `s` (three tables, the first one
-being the table the calls act on).  Every prefix of a history is a history, so "after `ops`" is
-"after every step of every history".
+`run kind a b c ops = .ok (s, outs)` says: the history `ops`, executed on the three tables `a b c` of the
+Model of `symboltable/{bst,avl,red_black}.go` — here three fresh ones, `Table.new cmpA eqA` etc., each
+constructed with its own comparator and value equality — ended in the state `s` (three table objects, the
+first one being the table the calls act on; `.root` is its tree).  Every prefix of a history is a history,
+so "after `ops`" is "after every step of every history".
 
 * `Balanced` : the real heights of the two subtrees of every node differ by at most one;
 * `HeightOK` : every cached `avlNode.height` is the real height of its subtree;
@@ -14,16 +15,19 @@ being the table the calls act on).  Every prefix of a history is a history, so "
   on every path (`RB`, `bh` in `Proofs/C01RbColor.lean`);
 * `realHeight` : the longest root-to-leaf path, counted in nodes.
 
-The AVL theorems need no assumption on the comparator at all; the LLRB ones assume `LawfulCmp`
-because `Delete` looks the key up first and relies on finding it again on the way down.
+The AVL theorems need no assumption on the comparators at all; the LLRB ones assume `LawfulCmp` (of each
+table's comparator) because `Delete` looks the key up first and relies on finding it again on the way down.
 -/
 open AlgoVerif AlgoVerif.C01
 
 /-- AVL: balanced, and every cached height is the real one, after every history. -/
-theorem C15_avl {K V : Type} (cmp : K → K → Int) (eqVal : V → V → Bool) (ops : List (Op K V))
-    (s : State K V) (outs : List (Out K V)) (hrun : run .avl cmp eqVal ops = .ok (s, outs)) :
-    (Balanced s.1 ∧ HeightOK s.1) ∧ (Balanced s.2.1 ∧ HeightOK s.2.1) ∧ (Balanced s.2.2 ∧ HeightOK s.2.2) := by
-  have := runFrom_inv (avl_kindInv cmp) eqVal ops (.nil, .nil, .nil) s outs ⟨trivial, trivial, trivial⟩ hrun
+theorem C15_avl {K V : Type} (cmpA cmpB cmpC : K → K → Int) (eqA eqB eqC : V → V → Bool) (ops : List (Op K V))
+    (s : State K V) (outs : List (Out K V))
+    (hrun : run .avl (.new cmpA eqA) (.new cmpB eqB) (.new cmpC eqC) ops = .ok (s, outs)) :
+    (Balanced s.1.root ∧ HeightOK s.1.root) ∧ (Balanced s.2.1.root ∧ HeightOK s.2.1.root) ∧
+      (Balanced s.2.2.root ∧ HeightOK s.2.2.root) := by
+  have := runFrom_inv (fun cmp => avl_kindInv cmp) ops (.new cmpA eqA, .new cmpB eqB, .new cmpC eqC) s outs
+      ⟨trivial, trivial, trivial⟩ hrun
   exact ⟨this.1.balanced, this.2.1.balanced, this.2.2.balanced⟩
 
 /-- A balanced tree of height `h` holds at least `fib (h+2) - 1` keys (so `h ≤ 1.44·log2(n+2)`). -/
@@ -32,31 +36,36 @@ theorem C15_avl_height {K V : Type} (t : Tree K V) (hb : Balanced t) :
   balanced_nodes_ge_fib hb
 
 /-- AVL, in API terms: after every history `fib (Height() + 2) ≤ Size() + 1`. -/
-theorem C15_avl_log {K V : Type} (cmp : K → K → Int) (h : LawfulCmp cmp) (eqVal : V → V → Bool)
+theorem C15_avl_log {K V : Type} (cmpA cmpB cmpC : K → K → Int) (hA : LawfulCmp cmpA) (hB : LawfulCmp cmpB)
+    (hC : LawfulCmp cmpC) (eqA eqB eqC : V → V → Bool)
     (ops : List (Op K V)) (s : State K V) (outs : List (Out K V))
-    (hrun : run .avl cmp eqVal ops = .ok (s, outs)) :
-    fib (height .avl s.1 + 2) ≤ s.1.sz + 1 := by
-  have ha := (runFrom_inv (avl_kindInv cmp) eqVal ops (.nil, .nil, .nil) s outs ⟨trivial, trivial, trivial⟩ hrun).1
-  obtain ⟨s', outs', e, g, -⟩ := runFrom_ok (avl_kindOK h) h eqVal ops (.nil, .nil, .nil) ⟨inv_nil, inv_nil, inv_nil⟩
+    (hrun : run .avl (.new cmpA eqA) (.new cmpB eqB) (.new cmpC eqC) ops = .ok (s, outs)) :
+    fib (height .avl s.1.root + 2) ≤ s.1.root.sz + 1 := by
+  have ha := (runFrom_inv (fun cmp => avl_kindInv cmp) ops (.new cmpA eqA, .new cmpB eqB, .new cmpC eqC) s outs
+      ⟨trivial, trivial, trivial⟩ hrun).1
+  obtain ⟨s', outs', e, g, -⟩ := runFrom_ok (fun _ h => avl_kindOK h) ops _
+    (goodS_new (fun _ h => avl_kindOK h) hA hB hC eqA eqB eqC)
   have hs : s' = s := by
     have : Outcome.ok (s', outs') = Outcome.ok (s, outs) := by rw [← e]; exact hrun
     simp only [Outcome.ok.injEq, Prod.mk.injEq] at this; exact this.1
   subst hs
-  have hz := g.1.2
+  have hz := g.1.2.2
   rw [sz_eq_length hz, ← nodes_eq_length]
   exact avl_nodes_ge_fib ha
 
 /-- LLRB: a left-leaning red-black tree after every history (all five mutators). -/
-theorem C15_rb {K V : Type} (cmp : K → K → Int) (h : LawfulCmp cmp) (eqVal : V → V → Bool)
+theorem C15_rb {K V : Type} (cmpA cmpB cmpC : K → K → Int) (hA : LawfulCmp cmpA) (hB : LawfulCmp cmpB)
+    (hC : LawfulCmp cmpC) (eqA eqB eqC : V → V → Bool)
     (ops : List (Op K V)) (s : State K V) (outs : List (Out K V))
-    (hrun : run .rb cmp eqVal ops = .ok (s, outs)) : LLRB s.1 ∧ LLRB s.2.1 ∧ LLRB s.2.2 := by
-  obtain ⟨s', outs', e, g, -⟩ := runFrom_ok (rb_kindOK h) h eqVal ops (.nil, .nil, .nil)
-    ⟨⟨inv_nil, llrb_nil⟩, ⟨inv_nil, llrb_nil⟩, ⟨inv_nil, llrb_nil⟩⟩
+    (hrun : run .rb (.new cmpA eqA) (.new cmpB eqB) (.new cmpC eqC) ops = .ok (s, outs)) :
+    LLRB s.1.root ∧ LLRB s.2.1.root ∧ LLRB s.2.2.root := by
+  obtain ⟨s', outs', e, g, -⟩ := runFrom_ok (fun _ h => rb_kindOK h) ops _
+    (goodS_new (fun _ h => rb_kindOK h) hA hB hC eqA eqB eqC)
   have hs : s' = s := by
     have : Outcome.ok (s', outs') = Outcome.ok (s, outs) := by rw [← e]; exact hrun
     simp only [Outcome.ok.injEq, Prod.mk.injEq] at this; exact this.1
   subst hs
-  exact ⟨g.1.2, g.2.1.2, g.2.2.2⟩
+  exact ⟨g.1.2.2, g.2.1.2.2, g.2.2.2.2⟩
 
 /-- A left-leaning red-black tree of height `h` with `n` keys has `2^h ≤ (n+1)^2`, i.e.
 `h ≤ 2·log2(n+1)`. -/
@@ -64,48 +73,50 @@ theorem C15_llrb_height {K V : Type} (t : Tree K V) (ht : LLRB t) : 2 ^ t.realHe
   llrb_pow_height_le ht
 
 /-- LLRB, in API terms: after every history `2^Height() ≤ (Size() + 1)^2`. -/
-theorem C15_rb_log {K V : Type} (cmp : K → K → Int) (h : LawfulCmp cmp) (eqVal : V → V → Bool)
+theorem C15_rb_log {K V : Type} (cmpA cmpB cmpC : K → K → Int) (hA : LawfulCmp cmpA) (hB : LawfulCmp cmpB)
+    (hC : LawfulCmp cmpC) (eqA eqB eqC : V → V → Bool)
     (ops : List (Op K V)) (s : State K V) (outs : List (Out K V))
-    (hrun : run .rb cmp eqVal ops = .ok (s, outs)) :
-    2 ^ height .rb s.1 ≤ (s.1.sz + 1) ^ 2 := by
-  obtain ⟨s', outs', e, g, -⟩ := runFrom_ok (rb_kindOK h) h eqVal ops (.nil, .nil, .nil)
-    ⟨⟨inv_nil, llrb_nil⟩, ⟨inv_nil, llrb_nil⟩, ⟨inv_nil, llrb_nil⟩⟩
+    (hrun : run .rb (.new cmpA eqA) (.new cmpB eqB) (.new cmpC eqC) ops = .ok (s, outs)) :
+    2 ^ height .rb s.1.root ≤ (s.1.root.sz + 1) ^ 2 := by
+  obtain ⟨s', outs', e, g, -⟩ := runFrom_ok (fun _ h => rb_kindOK h) ops _
+    (goodS_new (fun _ h => rb_kindOK h) hA hB hC eqA eqB eqC)
   have hs : s' = s := by
     have : Outcome.ok (s', outs') = Outcome.ok (s, outs) := by rw [← e]; exact hrun
     simp only [Outcome.ok.injEq, Prod.mk.injEq] at this; exact this.1
   subst hs
-  rw [sz_eq_length g.1.1.2, ← nodes_eq_length]
-  exact llrb_pow_height_le g.1.2
+  rw [sz_eq_length g.1.2.1.2, ← nodes_eq_length]
+  exact llrb_pow_height_le g.1.2.2
 
 /-- `Height()` is the length of the longest root-to-leaf path, for the three trees, after every history
 (BST and LLRB recompute it; AVL returns the cached height of the root). -/
-theorem C15_height_true {K V : Type} (kind : Kind) (cmp : K → K → Int) (eqVal : V → V → Bool)
+theorem C15_height_true {K V : Type} (kind : Kind) (cmpA cmpB cmpC : K → K → Int) (eqA eqB eqC : V → V → Bool)
     (ops : List (Op K V)) (s : State K V) (outs : List (Out K V))
-    (hrun : run kind cmp eqVal ops = .ok (s, outs)) :
-    height kind s.1 = s.1.realHeight := by
+    (hrun : run kind (.new cmpA eqA) (.new cmpB eqB) (.new cmpC eqC) ops = .ok (s, outs)) :
+    height kind s.1.root = s.1.root.realHeight := by
   cases kind with
   | bst => rfl
   | rb => rfl
   | avl =>
-    have := runFrom_inv (avl_kindInv cmp) eqVal ops (.nil, .nil, .nil) s outs ⟨trivial, trivial, trivial⟩ hrun
+    have := runFrom_inv (fun cmp => avl_kindInv cmp) ops (.new cmpA eqA, .new cmpB eqB, .new cmpC eqC) s outs
+      ⟨trivial, trivial, trivial⟩ hrun
     exact this.1.ht_eq
 
 /-! ### non-vacuity: the hypotheses are satisfiable on non-trivial states -/
 
 /-- D1's witness (`Put 2; Put 3; DeleteMax`) and a longer history run to completion on the AVL Model and
 reach non-trivial trees -/
-example : okAnd (run .avl cmpAsc eqInt [.put 2 2, .put 3 3, .deleteMax, .height])
-    (fun r => r.1.1.ht == 1 && r.1.1.sz == 1) = true := by decide
+example : okAnd (run1 .avl cmpAsc eqInt [.put 2 2, .put 3 3, .deleteMax, .height])
+    (fun r => r.1.1.root.ht == 1 && r.1.1.root.sz == 1) = true := by decide
 
-example : okAnd (run .avl cmpAsc eqInt
+example : okAnd (run1 .avl cmpAsc eqInt
       [.put 1 1, .put 2 2, .put 3 3, .put 4 4, .put 5 5, .put 6 6, .put 7 7, .delete 4, .deleteMin, .deleteMax])
-    (fun r => r.1.1.ht == 3 && r.1.1.sz == 4) = true := by decide
+    (fun r => r.1.1.root.ht == 3 && r.1.1.root.sz == 4) = true := by decide
 
 /-- an LLRB history with all kinds of deletes ends in a 5-key tree of height 3 -/
-example : okAnd (run .rb cmpDesc eqInt
+example : okAnd (run1 .rb cmpDesc eqInt
       [.put 1 1, .put 2 2, .put 3 3, .put 4 4, .put 5 5, .put 6 6, .put 7 7, .put 8 8, .delete 4, .deleteMin,
         .deleteMax])
-    (fun r => r.1.1.sz == 5 && r.1.1.realHeight == 3 && !r.1.1.isRed) = true := by decide
+    (fun r => r.1.1.root.sz == 5 && r.1.1.root.realHeight == 3 && !r.1.1.root.isRed) = true := by decide
 
 example : LawfulCmp cmpAsc := lawful_cmpAsc
 example : LawfulCmp cmpDesc := lawful_cmpDesc
